@@ -29,7 +29,7 @@ Definition key_info_suffix : list N := [58].
 (* info for 33 bytes: MUNGEKEY:sha256:264: *)
 Definition key_info_sample : list N := [77; 85; 78; 71; 69; 75; 69; 89; 58; 115; 104; 97; 50; 53; 54; 58; 50; 54; 52; 58].
 Definition key_info_sample_bytes : N := 33.
-Definition key_force_unlinks : bool := false.
-Definition key_force_unlink_first : bool := false.
-Definition key_force_open_excl : bool := false.
+Definition key_force_unlinks : bool := true.
+Definition key_force_unlink_first : bool := true.
+Definition key_force_open_excl : bool := true.
 Definition key_force_open_mode : N := 384.
